@@ -107,3 +107,41 @@ def replay_files(path):
             with open(os.path.join(base, fn)) as f:
                 out[fn] = f.read()
     return out
+
+
+def collision_string_programs(flavor, rng, want=6, pool=400000):
+    """Hostile string family: pairs of DIFFERENT strings to which the VM's string heap assigns the same hash (found
+    by asking the repository's own vm_string_new through probes/vmstr_probe, no knowledge of the hash function is
+    hard-coded), kept alive at the same time, compared, concatenated, indexed and stored.  Returns
+    [(name, program text, expected stdout)]."""
+    import subprocess
+    strs = set()
+    while len(strs) < pool:
+        strs.add("".join(rng.choice("abcdefghijklmnopqrstuvwxyz") for _ in range(8)))
+    strs = sorted(strs)
+    r = subprocess.run([flavor.probe("vmstr_probe")], input="\n".join(strs) + "\n", capture_output=True, text=True, timeout=600)
+    hashes = r.stdout.split()
+    groups = {}
+    for st, h in zip(strs, hashes):
+        groups.setdefault(h, []).append(st)
+    pairs = sorted(v[:2] for v in groups.values() if len(v) > 1)
+    rng.shuffle(pairs)
+    out = []
+    for a, b in pairs[:want]:
+        text = (
+            "fn keep(a: string, b: string) -> int {\n"
+            "    (println a)\n    (println b)\n    (println (== a b))\n    (println (!= a b))\n    (println (str_equals a b))\n"
+            "    (println (+ a b))\n    (println (+ b a))\n    (println (char_at a 0))\n    (println (char_at b 0))\n"
+            "    let arr: array<string> = [a, b, a]\n    (println (at arr 1))\n    (println (at arr 2))\n"
+            "    (println (str_contains (+ a b) b))\n    (println (str_length b))\n    return 0\n}\n"
+            "shadow keep { assert true }\n"
+            "fn main() -> int {\n"
+            "    let s1: string = (+ \"%s\" \"%s\")\n    let s2: string = (+ \"%s\" \"%s\")\n"
+            "    (keep s1 s2)\n    (keep \"%s\" \"%s\")\n    (println (== s1 \"%s\"))\n    (println (== s2 \"%s\"))\n    return 0\n}\n"
+            "shadow main { assert true }\n" % (a[:3], a[3:], b[:5], b[5:], b, a, a, a))
+
+        def blk(x, y):
+            return "%s\n%s\nfalse\ntrue\nfalse\n%s\n%s\n%d\n%d\n%s\n%s\ntrue\n%d\n" % (x, y, x + y, y + x, ord(x[0]), ord(y[0]), y, x, len(y))
+        exp = blk(a, b) + blk(b, a) + "true\nfalse\n"
+        out.append(("collision_%s_%s" % (a, b), text, exp))
+    return out
